@@ -14,6 +14,7 @@ Anything else raises NotEvaluable: the caller reports the obligation as undecide
 from __future__ import annotations
 
 import ast
+import warnings
 from fractions import Fraction
 from typing import Callable, Optional
 
@@ -61,10 +62,54 @@ def _axis(v, nd):
     return v % nd
 
 
+class Root:
+    """The square root of a non-negative rational that is not a perfect square: compared by its radicand, no arithmetic."""
+
+    def __init__(self, radicand):
+        self.radicand = Fraction(radicand)
+
+    def __eq__(self, other):
+        return isinstance(other, Root) and other.radicand == self.radicand
+
+    def __ne__(self, other):
+        return not self.__eq__(other)
+
+    def __hash__(self):
+        return hash(("root", self.radicand))
+
+    def __repr__(self):
+        return f"sqrt({self.radicand})"
+
+    def _no(self, *a, **k):
+        raise NotEvaluable("arithmetic on an irrational root")
+    __add__ = __radd__ = __sub__ = __rsub__ = __mul__ = __rmul__ = __truediv__ = __rtruediv__ = __neg__ = __lt__ = __le__ = __gt__ = __ge__ = __pow__ = _no
+
+
+def exact_sqrt(v):
+    """sqrt over the exact values: a rational for a perfect square, `Root` otherwise, not-a-number below zero."""
+    import math
+    if isinstance(v, float):
+        return math.sqrt(v) if v >= 0 else float("nan")
+    if isinstance(v, Root):
+        raise NotEvaluable("root of a root")
+    v = Fraction(v)
+    if v < 0:
+        return float("nan")
+    n_, d_ = math.isqrt(v.numerator), math.isqrt(v.denominator)
+    if n_ * n_ == v.numerator and d_ * d_ == v.denominator:
+        return Fraction(n_, d_)
+    return Root(v)
+
+
 def _as_exact(v):
     if isinstance(v, np.ndarray) and v.dtype == bool:
         return v.astype(int).astype(object)
     return v
+
+
+np.seterr(all="ignore")
+warnings.filterwarnings("ignore", category=RuntimeWarning, module=r"numpy.*")
+warnings.filterwarnings("ignore", category=RuntimeWarning, message=r"invalid value encountered.*")
 
 
 def teval(e: ast.AST, env: dict, leaf: Optional[Callable] = None, depth: int = 0):
@@ -400,7 +445,11 @@ def _call(c: ast.Call, ev, t: str):
     if name in ("int", "float", "bool") and len(c.args) == 1:
         v = ev(c.args[0])
         if _is_arr(v):
-            raise NotEvaluable("scalar conversion of a tensor")
+            if v.size != 1:
+                raise NotEvaluable("scalar conversion of a tensor")
+            v = v.reshape(-1)[0]  # (a one-element tensor converts to its element)
+            if isinstance(v, np.bool_):
+                v = bool(v)
         if name == "bool":
             return bool(v)
         if name == "int":
@@ -418,10 +467,19 @@ def _call(c: ast.Call, ev, t: str):
         raise NotEvaluable(t[:50])
     x = ev(f.value)
     m = f.attr
+    if m in ("square", "square_") and not c.args and (_is_arr(x) or isinstance(x, (int, Fraction))) and not isinstance(x, bool):
+        xe = _as_exact(x)
+        return xe * xe
+    if m in ("sqrt", "sqrt_") and not c.args and (_is_arr(x) or isinstance(x, (int, Fraction))) and not isinstance(x, bool):
+        if _is_arr(x):
+            return np.vectorize(exact_sqrt, otypes=[object])(_as_exact(x)) if x.size else _as_exact(x)
+        return exact_sqrt(x)
     if not _is_arr(x):
         if m == "item" and not c.args:
             return x
         raise NotEvaluable(t[:50])
+    if m == "clone":
+        return np.array(x, copy=True)  # (a tensor of its own: in-place updates of one do not reach the other)
     if m in IDENTITY_METHODS:
         return x
     if m == "bool":
